@@ -95,13 +95,15 @@ type recJ struct {
 	ID    uint64   `json:"id"`
 	Split int      `json:"split"`
 	Keys  []string `json:"keys"` // the key-by result: one keyed event per entry (may be empty)
+	Short int      `json:"short,omitempty"` // 1: the record's bytes are empty, 2: a single byte (the id's low byte); else a JSON payload
 }
 type opJ struct {
-	Op    string `json:"op"` // read | eoi (last chunk, returned with ErrEndOfInput) | barrier | tick | fire / expire / deliver (which: all|new|old) | relkb | holdop | relop
+	Op    string `json:"op"` // read | eoi (last chunk, returned with ErrEndOfInput) | readerr (a read that fails: retryable / terminal) | barrier | tick | fire / expire / deliver (which: all|new|old) | relkb | holdop | relop
 	Recs  []recJ `json:"recs,omitempty"`
 	ID    uint64 `json:"id,omitempty"`
 	I     int    `json:"i,omitempty"`
 	Which string `json:"which,omitempty"` // relkb: old | new | all
+	Err   string `json:"err,omitempty"`   // eoi: "" plain ErrEndOfInput | wrapped (fmt.Errorf("...: %w", ErrEndOfInput)); readerr: retry | terminal
 }
 type params struct {
 	NOps    int    `json:"nops"`
@@ -222,7 +224,21 @@ type kbCall struct {
 	idx int
 	rel chan struct{}
 }
+// shortTab: records whose bytes are too short to carry a payload (length 0 or 1), by content
+type shortTab struct {
+	mu sync.Mutex
+	m  map[string]payload
+}
+
+func (t *shortTab) get(k string) (payload, bool) {
+	t.mu.Lock()
+	defer t.mu.Unlock()
+	p, ok := t.m[k]
+	return p, ok
+}
+
 type handler struct {
+	short     *shortTab
 	mu        sync.Mutex
 	gate      bool
 	pending   []*kbCall
@@ -252,7 +268,13 @@ func (h *handler) KeyEventBatch(ctx context.Context, events [][]byte) ([][]*hand
 	out := make([][]*handlerpb.KeyedEvent, len(events))
 	for i, raw := range events {
 		var p payload
-		if err := json.Unmarshal(raw, &p); err != nil {
+		if len(raw) <= 1 { // a blank or one-byte record is a record like any other: the reader told us what it is
+			sp, ok := h.short.get(string(raw))
+			if !ok {
+				return nil, fmt.Errorf("unknown short record %q", raw)
+			}
+			p = sp
+		} else if err := json.Unmarshal(raw, &p); err != nil {
 			return nil, err
 		}
 		for j, k := range p.Keys {
@@ -434,7 +456,8 @@ type logItem struct {
 }
 type chunk struct {
 	nop  bool
-	eoi  bool // this is the last chunk: it is returned together with ErrEndOfInput
+	eoi  bool   // this is the last chunk: it is returned together with ErrEndOfInput
+	err  string // eoi: "" | wrapped; otherwise: retry | terminal = this read fails without records
 	recs []recJ
 }
 type reader struct {
@@ -455,6 +478,9 @@ type reader struct {
 	atEOI       bool     // ErrEndOfInput has been reported
 	handed      [][]byte // every record handed out so far
 	extraReads  int      // ReadEvents calls after ErrEndOfInput was reported
+	eoiErr      error
+	short       *shortTab
+	nshort      int
 }
 
 func (r *reader) noticeTickLocked() {
@@ -472,8 +498,9 @@ func (r *reader) ReadEvents() ([][]byte, error) {
 		// delivered twice. A correct ReadSourceChannel never comes here.
 		r.extraReads++
 		again := append([][]byte{}, r.handed...)
+		err := r.eoiErr
 		r.mu.Unlock()
-		return again, connectors.ErrEndOfInput
+		return again, err
 	}
 	spin := r.ckptSeen < r.ckptReq || r.tickPending
 	if spin {
@@ -501,6 +528,13 @@ func (r *reader) ReadEvents() ([][]byte, error) {
 	r.mu.Lock()
 	defer r.mu.Unlock()
 	r.queued--
+	switch {
+	case c.eoi:
+	case c.err == "retry":
+		return nil, connectors.NewRetryableError(fmt.Errorf("scripted transient read failure"))
+	case c.err == "terminal":
+		return nil, connectors.NewTerminalError(fmt.Errorf("scripted terminal read failure"))
+	}
 	out := make([][]byte, 0, len(c.recs))
 	for _, rec := range c.recs {
 		if r.seen[rec.ID] {
@@ -508,14 +542,32 @@ func (r *reader) ReadEvents() ([][]byte, error) {
 		}
 		r.seen[rec.ID] = true
 		r.seq++
-		b, _ := json.Marshal(payload{ID: rec.ID, Split: rec.Split, Keys: rec.Keys, Seq: r.seq})
+		pl := payload{ID: rec.ID, Split: rec.Split, Keys: rec.Keys, Seq: r.seq}
+		b, _ := json.Marshal(pl)
+		if rec.Short == 1 || rec.Short == 2 {
+			sb := []byte{}
+			if rec.Short == 2 {
+				sb = []byte{byte(rec.ID)}
+			}
+			r.short.mu.Lock()
+			if _, taken := r.short.m[string(sb)]; !taken { // one record per short content, others keep their payload
+				r.short.m[string(sb)] = pl
+				b = sb
+				r.nshort++
+			}
+			r.short.mu.Unlock()
+		}
 		out = append(out, b)
 		r.handed = append(r.handed, b)
 		r.log = append(r.log, logItem{Kind: "rec", ID: rec.ID, Split: rec.Split, Keys: rec.Keys})
 	}
 	if c.eoi {
 		r.atEOI = true
-		return out, connectors.ErrEndOfInput // "still return events even with the EOI error"
+		r.eoiErr = connectors.ErrEndOfInput
+		if c.err == "wrapped" {
+			r.eoiErr = fmt.Errorf("scripted source exhausted: %w", connectors.ErrEndOfInput)
+		}
+		return out, r.eoiErr // "still return events even with the EOI error"
 	}
 	return out, nil
 }
@@ -561,6 +613,9 @@ type observed struct {
 	TimerSets int       `json:"timer_sets"`
 	Late      int       `json:"late_callbacks"`
 	EOI       bool      `json:"end_of_input_reported"`
+	Short     int       `json:"short_records"`
+	Retried   bool      `json:"retryable_read_failure"`
+	Aborted   bool      `json:"terminal_read_failure"`
 	ExtraReads int      `json:"reads_after_end_of_input"`
 	Races     int       `json:"select_races"`
 	TimedOut  bool      `json:"timed_out"`
@@ -571,8 +626,9 @@ func runCase(p params, ops []opJ) (*observed, error) {
 		return nil, fmt.Errorf("bad params %+v", p)
 	}
 	ft := &treg{}
-	h := &handler{gate: p.KBGate}
-	rd := &reader{inbox: make(chan *chunk, len(ops)*2+8), ticks: make(chan time.Time, 1), seen: map[uint64]bool{}}
+	st := &shortTab{m: map[string]payload{}}
+	h := &handler{gate: p.KBGate, short: st}
+	rd := &reader{inbox: make(chan *chunk, len(ops)*2+8), ticks: make(chan time.Time, 1), seen: map[uint64]bool{}, short: st}
 	fops := make([]*fop, p.NOps)
 	nodes := make([]*jobpb.NodeIdentity, p.NOps)
 	for i := range fops {
@@ -621,16 +677,11 @@ func runCase(p params, ops []opJ) (*observed, error) {
 		cancel()
 		return nil, err
 	}
-	barQ := make(chan uint64, len(ops)+1)
-	go func() {
-		for id := range barQ {
-			sr.HandleStartCheckpoint(ctx, id)
-		}
-	}()
 	quiesce()
 
 	obs := &observed{}
 	eoiSent := false
+	retried, aborted := false, false
 	expected := 0 // events the operators must receive in total
 	for _, op := range ops {
 		switch op.Op {
@@ -645,14 +696,38 @@ func runCase(p params, ops []opJ) (*observed, error) {
 				expected += len(rec.Keys)
 			}
 			eoiSent = op.Op == "eoi"
-			rd.inbox <- &chunk{recs: op.Recs, eoi: eoiSent}
-		case "barrier":
+			rd.inbox <- &chunk{recs: op.Recs, eoi: eoiSent, err: op.Err}
+		case "readerr": // this read fails: retry = retryable (logged, read again after the back-off), terminal = the loop gives up
+			if eoiSent || (op.Err != "retry" && op.Err != "terminal") {
+				break
+			}
 			rd.mu.Lock()
-			rd.ckptReq++
+			rd.queued++
 			rd.mu.Unlock()
-			expected += p.NOps
-			barQ <- op.ID
-			rd.inbox <- &chunk{nop: true}
+			if op.Err == "retry" {
+				retried = true
+			} else {
+				aborted = true
+				eoiSent = true
+			}
+			rd.inbox <- &chunk{err: op.Err}
+		case "barrier":
+			// HandleStartCheckpoint returns once the barrier sits in the runner's (one-slot) channel; only then the reader is
+			// told to keep handing the loop back to its select, so every round really has the barrier to choose
+			done := make(chan struct{})
+			go func() { sr.HandleStartCheckpoint(ctx, op.ID); close(done) }()
+			quiesce()
+			select {
+			case <-done:
+				rd.mu.Lock()
+				rd.ckptReq++
+				rd.mu.Unlock()
+				expected += p.NOps
+				rd.inbox <- &chunk{nop: true}
+			default:
+				// the previous barrier has not been taken yet (cannot happen with a loop that takes barriers itself): this one
+				// stays behind it and is logged when and if it is taken
+			}
 		case "tick":
 			rd.mu.Lock()
 			rd.noticeTickLocked() // after the end of input nobody calls the reader any more
@@ -712,10 +787,24 @@ func runCase(p params, ops []opJ) (*observed, error) {
 	}
 	ft.drain()
 	quiesce()
+	if retried {
+		// ReadSourceChannel backs off (100 ms * 2^failures, wall clock) before the read after a retryable failure: wait until
+		// the loop has come back for everything the script queued
+		for w := time.Now(); time.Since(w) < 5*time.Second; {
+			rd.mu.Lock()
+			q := rd.queued
+			rd.mu.Unlock()
+			if q == 0 {
+				break
+			}
+			time.Sleep(2 * time.Millisecond)
+		}
+		quiesce()
+	}
 	if p.Timer == "system" {
 		// real timers: wait (bounded) until everything expected has arrived; a correct pipeline always gets there
 		last := delivered()
-		for last < expected {
+		for last < expected && !aborted {
 			if time.Since(t0) > 3*time.Second { // 3 s without a single new event
 				obs.TimedOut = true
 				break
@@ -737,6 +826,9 @@ func runCase(p params, ops []opJ) (*observed, error) {
 	obs.Input = append([]logItem{}, rd.log...)
 	obs.EOI = rd.atEOI
 	obs.ExtraReads = rd.extraReads
+	obs.Short = rd.nshort
+	obs.Retried = retried
+	obs.Aborted = aborted
 	obs.Unread = rd.queued
 	dup := rd.dup
 	rd.mu.Unlock()
@@ -755,7 +847,6 @@ func runCase(p params, ops []opJ) (*observed, error) {
 	ft.mu.Unlock()
 
 	// teardown
-	close(barQ)
 	cancel()
 	close(rd.inbox)
 	stopped := false
@@ -798,7 +889,7 @@ func (eng) Rule(mode string) string {
 	if mode == "c05" {
 		return "mode c05 (routing of fan-out records through the real SourceRunner): 2..5 operators, key-group counts 1..64 incl. fewer groups than operators, harness-fired batch time-outs (MaxDelay > 0), 4..12 records each fanning out into 1..4 keyed events with random keys (length 0..12); observable: (key, operator index) of every keyed event an operator's HandleEventBatch received. Non-trivial: a record with several keys and at least two operators reached."
 	}
-	return "one real SourceRunner per case: 1..4 operators, key-group counts from the operator count to 64, MaxSize 0..6, time-outs none / one harness timer per batcher (expiry and - possibly late - delivery of the callback scripted, Stop cancels what has not expired) / real (20us..2ms), 3..40 records over 1..3 splits with 0..3 keyed events each from a small key alphabet, barriers and watermark ticks at generated positions, in 2 of 5 cases a bounded source (the last read returns ErrEndOfInput; a reader asked again afterwards would hand out all its records once more), gated KeyEventBatch completions released oldest/newest first, gated operators. Non-trivial: at least two operators, at least 4 keyed events, and a key that occurs in two records of one split."
+	return "one real SourceRunner per case: 1..4 operators, key-group counts from the operator count to 64, MaxSize 0..6, time-outs none / one harness timer per batcher (expiry and - possibly late - delivery of the callback scripted, Stop cancels what has not expired) / real (20us..2ms), 3..40 records over 1..3 splits with 0..3 keyed events each from a small key alphabet (one record in six is a zero-length or one-byte record, keyed like any other), reads that fail (retryable, then read again; terminal), barriers and watermark ticks at generated positions, in 2 of 5 cases a bounded source (the last read returns ErrEndOfInput, plain or wrapped with %w, with or without records; a reader asked again afterwards would hand out all its records once more), gated KeyEventBatch completions released oldest/newest first, gated operators. Non-trivial: at least two operators, at least 4 keyed events, and a key that occurs in two records of one split."
 }
 
 func coqMarker(k string, id uint64) string {
@@ -897,8 +988,8 @@ func (eng) Execute(mode string, c *hx.Case) (*hx.Result, error) {
 		wmT = append(wmT, hx.CoqList(wv, "N"))
 	}
 	delayB := p.Timer == "fake" || p.Timer == "system"
-	term := fmt.Sprintf("RC %d %d %d %s %s %s %s %s", p.NOps, p.KGC, p.MaxSize, hx.CoqBool(delayB),
-		hx.CoqList(items, "ritem"), hx.CoqList(opsT, "list (list ev)"), hx.CoqList(wmT, "list N"), hx.CoqBool(obs.Overlap || obs.TimedOut))
+	term := fmt.Sprintf("RC %d %d %d %s %s %s %s %s %s", p.NOps, p.KGC, p.MaxSize, hx.CoqBool(delayB),
+		hx.CoqList(items, "ritem"), hx.CoqList(opsT, "list (list ev)"), hx.CoqList(wmT, "list N"), hx.CoqBool(obs.Aborted), hx.CoqBool(obs.Overlap || obs.TimedOut))
 	if mode == "c05" {
 		// routing only: every delivered keyed event as (key, operator it arrived at)
 		var kos []string
@@ -946,6 +1037,9 @@ func (eng) Execute(mode string, c *hx.Case) (*hx.Result, error) {
 	add(obs.Unread > 0, "unread_chunks")
 	add(obs.Late > 0, "late_callback_delivered")
 	add(obs.EOI, "end_of_input")
+	add(obs.Short > 0, "zero_or_one_byte_record")
+	add(obs.Retried, "retryable_read_failure")
+	add(obs.Aborted, "terminal_read_failure")
 	add(obs.ExtraReads > 0, "read_after_end_of_input")
 	add(p.KBGate, "kbgate")
 	add(p.OpGate, "opgate")
@@ -1022,6 +1116,9 @@ func genCase(r *hx.Rand, big bool) *hx.Case {
 					ks[j] = alphabet[r.Intn(nalpha)]
 				}
 				recs[i] = recJ{ID: id, Split: r.Intn(nsplits), Keys: ks}
+				if nk > 0 && r.Chance(1, 6) {
+					recs[i].Short = r.Range(1, 2) // a blank / one-byte record, keyed like any other
+				}
 				id++
 			}
 			left -= n
@@ -1143,6 +1240,24 @@ func genCase(r *hx.Rand, big bool) *hx.Case {
 			}
 		}
 	}
+	// a read that fails: retryable (one per case: each costs the channel's real back-off of 200 ms) somewhere before the last
+	// read, or - rarely - terminal, after which nothing more is read
+	if x := r.Intn(40); x < 2 {
+		var reads []int
+		for i, raw := range ops {
+			var o opJ
+			json.Unmarshal(raw, &o)
+			if o.Op == "read" {
+				reads = append(reads, i)
+			}
+		}
+		if len(reads) >= 2 {
+			at := reads[r.Intn(len(reads)-1)]
+			ops = append(ops[:at+1], append([]json.RawMessage{hx.Op(opJ{Op: "readerr", Err: "retry"})}, ops[at+1:]...)...)
+		}
+	} else if x == 2 {
+		ops = append(ops, hx.Op(opJ{Op: "readerr", Err: "terminal"}), hx.Op(opJ{Op: "fire"}))
+	}
 	// a bounded source: the last read reports the end of input, either together with its records or in a read of its own
 	if r.Chance(2, 5) {
 		last := -1
@@ -1156,11 +1271,13 @@ func genCase(r *hx.Rand, big bool) *hx.Case {
 		if last >= 0 {
 			var o opJ
 			json.Unmarshal(ops[last], &o)
-			if r.Bool() {
+			werr := hx.Pick(r, []string{"", "wrapped"})
+			if r.Chance(2, 3) {
 				o.Op = "eoi"
+				o.Err = werr
 				ops[last] = hx.Op(o)
 			} else {
-				ops = append(ops[:last+1], append([]json.RawMessage{hx.Op(opJ{Op: "eoi"})}, ops[last+1:]...)...)
+				ops = append(ops[:last+1], append([]json.RawMessage{hx.Op(opJ{Op: "eoi", Err: werr})}, ops[last+1:]...)...)
 			}
 			if r.Bool() {
 				ops = append(ops, hx.Op(opJ{Op: "tick"}), hx.Op(opJ{Op: "barrier", ID: bar}))
